@@ -658,6 +658,20 @@ pub fn run() {
       }
     }
   });
+  // date-times with the time of day at and beyond its limits (hour 24+, minute 60+, second 60+), each zone form
+  for date in ["2021-06-30", "2020-02-29", "-0044-03-15"] {
+    for h in [0u32, 23, 24, 25, 99] {
+      for mi in [0u32, 59, 60, 61, 99] {
+        for sec in [0u32, 59, 60, 61, 99] {
+          for frac in ["", ".5", ".999999999"] {
+            for z in &zone_forms {
+              check_literal(&run, &cnt, Kind::DateTime, &format!("{}T{:02}:{:02}:{:02}{}{}", date, h, mi, sec, frac, z), "date-time");
+            }
+          }
+        }
+      }
+    }
+  }
   // durations
   let comp: Vec<Option<u64>> = vec![None, Some(0), Some(1), Some(23), Some(24), Some(59), Some(60), Some(1_000_000_000)];
   let dfracs = ["", ".5", ".000000001", ".123456789", ".999999999", ".10"];
